@@ -122,14 +122,23 @@ func intCodec() codec[int] {
 }
 
 func strCodec() codec[string] {
+	// key 1 is the EMPTY string (hashed by a special case in the library)
 	return codec[string]{
-		to: func(i int) string { return "k" + strconv.Itoa(i) },
+		to: func(i int) string {
+			if i == 1 {
+				return ""
+			}
+			return "k" + strconv.Itoa(i)
+		},
 		from: func(s string) int {
+			if s == "" {
+				return 1
+			}
 			if len(s) < 2 || s[0] != 'k' {
 				return -1
 			}
 			n, err := strconv.Atoi(s[1:])
-			if err != nil {
+			if err != nil || n == 1 {
 				return -1
 			}
 			return n
@@ -506,6 +515,10 @@ func (a *cacheAd) Do(o *model.Op) (r model.Res) {
 	case model.CDeleteExpired:
 		c.DeleteExpired()
 	case model.CRange:
+		if o.N < 0 {
+			c.Range(nil) // a nil visitor is ignored
+			break
+		}
 		n := 0
 		c.Range(func(k string, v interface{}) bool {
 			r.Vis = append(r.Vis, model.KV{K: a.kc.from(k), V: toInt(v)})
@@ -680,6 +693,10 @@ func (a *cacheOfAd[K]) Do(o *model.Op) (r model.Res) {
 	case model.CDeleteExpired:
 		c.DeleteExpired()
 	case model.CRange:
+		if o.N < 0 {
+			c.Range(nil) // a nil visitor is ignored
+			break
+		}
 		n := 0
 		c.Range(func(k K, v int) bool {
 			r.Vis = append(r.Vis, model.KV{K: a.kc.from(k), V: v})
